@@ -154,7 +154,7 @@ var hostileConstants = []string{
 
 func genBytes(t *rapid.T) bytesCase {
 	c := bytesCase{BufSize: rapid.SampledFrom([]int{32, 64, 4096, 8192}).Draw(t, "buf")}
-	switch rapid.IntRange(0, 7).Draw(t, "cls") {
+	switch rapid.IntRange(0, 8).Draw(t, "cls") {
 	case 0: // deep nesting
 		depth := rapid.SampledFrom([]int{10, 100, 1000, 10000, 100000, 400000}).Draw(t, "depth")
 		if vh.Thorough() && rapid.IntRange(0, 3).Draw(t, "deeper") == 0 {
@@ -188,6 +188,18 @@ func genBytes(t *rapid.T) bytesCase {
 	case 3: // huge declared lengths followed by little data
 		n := rapid.SampledFrom([]string{"536870912", "536870913", "1048576", "1048577", "2147483647", "2147483648", "4294967296", "9223372036854775807", "-1", "-2", "-9223372036854775808", "99999999999999999999"}).Draw(t, "len")
 		c.Data = []byte(rapid.SampledFrom([]string{"$", "*"}).Draw(t, "t") + n + "\r\n" + rapid.SampledFrom([]string{"", "a", "$1\r\na\r\n"}).Draw(t, "rest"))
+	case 5: // one short unit repeated very often without anything else in between: every unit must leave the decoder's
+		// stack where it was (a decoder that handles a skipped or empty element by calling itself grows with the count)
+		if rapid.Bool().Draw(t, "sampled") {
+			c.Repeat = rapid.SampledFrom([]string{"\r\n", " \r\n", "\n", "   \r\n", "\t\r\n", "+\r\n", "-\r\n", ":1\r\n", "$-1\r\n", "*0\r\n", "*-1\r\n", "$0\r\n\r\n", "a\r\n", "\r", " "}).Draw(t, "unit")
+		} else {
+			c.Repeat = string(rapid.SliceOfN(rapid.SampledFrom([]byte("*$+-:01\r\n ab")), 1, 5).Draw(t, "unitbytes"))
+		}
+		c.Times = rapid.SampledFrom([]int{1000, 10000, 100000, 400000}).Draw(t, "times")
+		if vh.Thorough() && rapid.IntRange(0, 3).Draw(t, "more") == 0 {
+			c.Times = 2000000
+		}
+		c.Tail = rapid.SampledFrom([]string{"", ":1\r\n", "*1\r\n$4\r\nping\r\n"}).Draw(t, "tail")
 	case 4: // wide and nested with declared widths larger than the data
 		c.Data = []byte(strings.Repeat("*3\r\n", rapid.IntRange(1, 50).Draw(t, "d")) + ":1\r\n")
 	default:
@@ -219,7 +231,11 @@ func TestDecoderBytes(t *testing.T) {
 		}
 		vh.Rec().Case("decoder", nt, key)
 		if c.Repeat != "" && c.Times >= 100000 {
-			vh.Rec().Class("decoder", "nesting_depth>=100000")
+			if strings.HasPrefix(c.Repeat, "*") {
+				vh.Rec().Class("decoder", "nesting_depth>=100000")
+			} else {
+				vh.Rec().Class("decoder", "short_unit_repeated>=100000_times")
+			}
 		}
 		vh.Rec().Sample("decoder", nt, func() interface{} {
 			if c.Repeat != "" {
